@@ -45,7 +45,7 @@ def keygen_case(rec, cs, suite_cls, ikm, info, cls="keygen"):
     return sk
 
 
-def w5_case(rec, cs, suite_cls, ikm, info, j):
+def w5_case(rec, cs, suite_cls, ikm, info, j, mon="B-keygen"):
     """Force the first j hkdf_expand outputs (as seen by ciphersuites) to be = 0 mod r."""
     inner = getattr(cs, "hkdf_expand", None)
     if inner is None:
@@ -61,7 +61,12 @@ def w5_case(rec, cs, suite_cls, ikm, info, j):
 
     cs.hkdf_expand = stub
     try:
-        st, sk = call(suite_cls.KeyGen, ikm, info)
+        from ..monitors import bls as _bmon
+        _bmon._FAULT[0] += 1
+        try:
+            st, sk = call(suite_cls.KeyGen, ikm, info)
+        finally:
+            _bmon._FAULT[0] -= 1
     finally:
         cs.hkdf_expand = inner
     if n[0] == 0:
@@ -72,11 +77,12 @@ def w5_case(rec, cs, suite_cls, ikm, info, j):
     rec.case("keygen:retry(W5)", ("w5", ikm, info, j), sample={"fn": "KeyGen with first %d candidate keys forced to 0" % j, "ikm_len": len(ikm), "hkdf_expand_calls": n[0]})
     rec.path("keygen_retry_iterations=%d" % n[0])
     if st != "ok":
-        rec.check("B-keygen", False, "keygen:retry(W5)", "KeyGen raised %r in the retry path" % (sk,), case=case, facts={"fn": "KeyGen", "kind": "retry-raise"})
+        rec.check(mon, False, "keygen:retry(W5)", "KeyGen raised %r in the retry path" % (sk,), case=case, facts={"fn": "KeyGen", "kind": "retry-raise"})
         return
-    rec.check("B-keygen", n[0] == j + 1 and type(sk) is int and 1 <= sk < R and sk == exp, "keygen:retry(W5)",
+    rec.check(mon, n[0] == j + 1 and type(sk) is int and 1 <= sk < R and sk == exp, "keygen:retry(W5)",
               "KeyGen retry loop: expected %d hkdf_expand calls and the key of attempt %d" % (j + 1, j + 1), case=case,
               facts={"fn": "KeyGen", "kind": "retry"}, expected=exp, observed={"sk": sk, "calls": n[0]})
+    return sk
 
 
 def run(rec):
